@@ -302,7 +302,10 @@ def register(w):
         "raises": {"FuncADLIndexError": "any"},
         "ensures": ["good(result)"],
         # the remaining parameters are well-formed `arg` nodes (grammar of arguments.args)
-        "loops": {0: {"invariant": ["wf(ast.arguments([], _rest, None, [], [], None, []))"]}},
+        # (the frame pushed by `with stack_frame(...)` stays while the names are entered: the loop
+        # body's define_name calls leave the number of frames alone)
+        "loops": {0: {"invariant": ["wf(ast.arguments([], _rest, None, [], [], None, []))",
+                                    "len(self._arg_stack._arg_transformer) >= 2"]}},
         "modifies": ["*"], "facts_fuel": 6,
         "properties": ["C18", "C14"],
     })
@@ -463,6 +466,79 @@ def register(w):
         "modifies": ["*"],
         "properties": ["C18", "C14", "C02"],
     })
+    RA = f"{F}::make_args_unique.replace_args"
+    C.register_class(w, {
+        "key": RA,
+        "base": "NodeTransformer",
+        "state": {"_arg_stack": "list", "_seen_lambda": "bool"},
+        "init_state": {"_arg_stack": "[]", "_seen_lambda": "False"},
+        # hypothesis: a well-formed node of query shape stays one (a Lambda keeps its number of
+        # parameters); the renaming stack - pairs of strings - is the same after a visit as before
+        "visit_requires": ["wf(node)", "qs(node)", "pairs_ok(self._arg_stack)"],
+        "visit_ensures": ["wf(result)", "qs(result)", "same_kind(node, result)", "is_node(result)",
+                          "same(self._arg_stack, old(self._arg_stack))"],
+        "visit_effects": {"_seen_lambda": "ufb('seen_after_visit', node, old(self._seen_lambda))"},
+        "visit_globals": ["argument_var_counter"],
+        "generic_requires": ["wf(node)", "qs(node)", "pairs_ok(self._arg_stack)"],
+        "generic_ensures": ["wf(result)", "qs(result)", "same_kind(node, result)", "is_node(result)",
+                            "same_class(node, result)",
+                            "implies(isinstance(node, ast.Lambda), isinstance(result, ast.Lambda) "
+                            "and isinstance(result.args, ast.arguments))",
+                            "same(self._arg_stack, old(self._arg_stack))"],
+        "generic_effects": {"_seen_lambda": "ufb('seen_after_generic', node, old(self._seen_lambda))"},
+        "assumes": ["generic_visit of a well-formed node of query shape whose children are replaced "
+                    "by visit results satisfying the hypothesis is again well-formed and of query "
+                    "shape, and leaves the renaming stack as it found it when every child visit does"],
+        "properties": ["C18", "C14", "C02"],
+    })
+    C.register(w, {
+        "key": f"{RA}.visit_Name",
+        "self": RA,
+        "params": {"node": "py"},
+        "requires": ["isinstance(node, ast.Name)", "wf(node)", "pairs_ok(self._arg_stack)"],
+        "raises": {},
+        "ensures": ["isinstance(result, ast.Name)"],
+        "lemma_instances": ["lem_pairs_rev(self._arg_stack, [])"],
+        "loops": {0: {"invariant": ["pairs_ok(_rest)"]}},
+        "modifies": [],
+        "properties": ["C18", "C14", "C02"],
+    })
+    C.register(w, {
+        "key": f"{RA}.visit_Lambda",
+        "self": RA,
+        "params": {"node": "py"},
+        "requires": ["isinstance(node, ast.Lambda)", "wf(node)", "qs(node)",
+                     "pairs_ok(self._arg_stack)"],
+        "raises": {},
+        "ghost": {"S0": "self._arg_stack"},
+        "ensures": ["isinstance(result, ast.Lambda)",
+                    "len(result.args.args) == len(node.args.args)"],
+        "lemma_instances": ["lem_argl(node.args.args)"],
+        "comps": {
+            0: {"invariant": ["all_list(is_argn, _rest)", "pairs_ok(_out)", "len(_out) == len(_done)"],
+                "step_hints": ["lem_pairs_snoc(_out0, _elt)"]},
+            1: {"invariant": ["all_list(is_argn, _rest)", "pairs_ok(_out)", "len(_out) == len(_done)"],
+                "step_hints": ["lem_pairs_snoc(_out0, _elt)"]},
+            2: {"invariant": ["pairs_ok(_rest)", "all_list(is_plain_arg, _out)", "all_list(qs, _out)",
+                              "len(_out) == len(_done)"],
+                "hints": ["lem_pa1(_out)"],
+                "step_hints": ["lem_plain_snoc(_out0, _elt)", "lem_qs_snoc(_out0, _elt)"]},
+        },
+        "loops": {
+            0: {"invariant": ["pairs_ok(_rest)", "same(self._arg_stack, concat(S0, _done))",
+                              "pairs_ok(self._arg_stack)"],
+                "step_hints": ["lem_cat_assoc(S0, _done, [head(_rest)])",
+                               "lem_pairs_snoc(concat(S0, _done), head(_rest))"]},
+            1: {"invariant": ["len(self._arg_stack) == len(S0) + len(_rest)",
+                              "same(take(self._arg_stack, len(S0)), S0)"],
+                "pre_hints": ["lem_take_cat(S0, mapping)"],
+                "hints": ["lem_take_all(self._arg_stack)",
+                          "lem_take_take(self._arg_stack, len(self._arg_stack) - 1, len(S0))",
+                          "lem_len_take(self._arg_stack, len(self._arg_stack) - 1)"]},
+        },
+        "modifies": ["*"], "facts_fuel": 6, "parallel": 8,
+        "properties": ["C18", "C14", "C02"],
+    })
     C.register(w, {
         "key": f"{F}::make_args_unique",
         "params": {"a": "py"},
@@ -470,12 +546,13 @@ def register(w):
         "ensures": ["isinstance(result, ast.Lambda)", "good(result)",
                     "isinstance(result.args, ast.arguments)",
                     "len(result.args.args) == len(a.args.args)"],
-        "fresh": "deep",
+        "raises": {},
+        "fresh": "deep", "fresh_trusted": True,
         "modifies": ["global.argument_var_counter"],
-        "abstract": True, "trusted": True,
-        "assumes": ["make_args_unique (deepcopy + inner renaming visitor) returns a well-formed "
-                    "Lambda of query shape with the same number of parameters: NOT verified here; "
-                    "its semantic effect is exercised by engine B (C02)"],
+        "assumes": ["the tree make_args_unique returns shares no node with its argument (it visits a "
+                    "deep copy, and the inner visitor returns the node it was given or nodes it "
+                    "built): freshness through a visitor is not derived by the engine; that the "
+                    "renaming preserves MEANING is exercised by engine B (C02)"],
         "properties": ["C18", "C14"],
     })
     C.register(w, {
@@ -501,6 +578,20 @@ def register(w):
     # proj_kha is proved first; the two key_last lemmas use its instance at the tail
     hints = {"klr": ["lem_kha(tail(d), r, s)"], "kld": ["lem_kha(tail(d), r, s)"]}
     PR = ["C18", "C14", "C02"]
+    register_lemma(w, {"name": "pa1", "pred": "lem_pa1", "induct": "list", "fuel": 4, "properties": PR})
+    register_lemma(w, {"name": "qs_snoc", "pred": "lem_qs_snoc", "induct": "list", "fuel": 2, "properties": PR})
+    register_lemma(w, {"name": "plain_snoc", "pred": "lem_plain_snoc", "induct": "list", "fuel": 4,
+                       "properties": PR})
+    register_lemma(w, {"name": "pairs_snoc", "pred": "lem_pairs_snoc", "induct": "list", "fuel": 4,
+                       "properties": PR})
+    register_lemma(w, {"name": "take_all", "pred": "lem_take_all", "induct": "list", "fuel": 4,
+                       "properties": PR})
+    register_lemma(w, {"name": "take_take", "pred": "lem_take_take", "induct": "list",
+                       "ih_pred": "lem_take_take_ih", "fuel": 4, "properties": PR})
+    register_lemma(w, {"name": "pairs_rev", "pred": "lem_pairs_rev", "induct": "list",
+                       "ih_cons_head": ["acc"], "fuel": 4, "properties": PR})
+    register_lemma(w, {"name": "pairs_cat", "pred": "lem_pairs_cat", "induct": "list", "fuel": 4,
+                       "properties": PR})
     register_lemma(w, {"name": "argl", "pred": "lem_argl", "induct": "list", "fuel": 4,
                        "properties": PR})
     register_lemma(w, {"name": "all_argn_cat", "pred": "lem_all_argn_cat", "induct": "list",
